@@ -95,8 +95,28 @@ func goEnv() []string {
 	return env
 }
 
+// modfileArgs: development aid. VERIF_REPO=<dir> builds the worker against another copy of
+// golib (a scratch worktree carrying a seeded change) without touching /repo; the registered
+// checks never set it and always build from /repo.
+func modfileArgs() []string {
+	alt := os.Getenv("VERIF_REPO")
+	if alt == "" {
+		return nil
+	}
+	h := filepath.Join(root(), "harness")
+	name := fmt.Sprintf("alt-%016x", vlib.HashStr(alt))
+	mod := filepath.Join(root(), "work", "altmod", name+".mod")
+	os.MkdirAll(filepath.Dir(mod), 0o755)
+	b, _ := os.ReadFile(filepath.Join(h, "go.mod"))
+	os.WriteFile(mod, []byte(strings.Replace(string(b), "=> /repo", "=> "+alt, 1)), 0o644)
+	sum, _ := os.ReadFile(filepath.Join(h, "go.sum"))
+	os.WriteFile(filepath.Join(root(), "work", "altmod", name+".sum"), sum, 0o644)
+	return []string{"-modfile=" + mod}
+}
+
 func build(prop string, fl flavour, bin string) error {
 	args := []string{"build", "-tags", "verif"}
+	args = append(args, modfileArgs()...)
 	args = append(args, fl.BuildArgs...)
 	args = append(args, "-o", bin, "./cmd/w"+prop)
 	cmd := exec.Command("go", args...)
@@ -444,7 +464,7 @@ func main() {
 		}
 	}
 	start := time.Now()
-	workDir := filepath.Join(root(), "work", prop)
+	workDir := filepath.Join(root(), "work", prop+os.Getenv("VERIF_WORK_SUFFIX"))
 	os.RemoveAll(workDir)
 	os.MkdirAll(filepath.Join(workDir, "bin"), 0o755)
 	known := vlib.LoadKnown(prop)
@@ -643,8 +663,12 @@ func main() {
 		"assumptions": cfg.Assumptions, "wall_s": time.Since(start).Seconds(), "violations": len(vkeys),
 	}
 	b, _ := json.MarshalIndent(ev, "", " ")
-	os.MkdirAll(filepath.Join(root(), "evidence"), 0o755)
-	os.WriteFile(filepath.Join(root(), "evidence", prop+".json"), b, 0o644)
+	evDir := filepath.Join(root(), "evidence")
+	if os.Getenv("VERIF_REPO") != "" {
+		evDir = filepath.Join(root(), "work", "altevidence"+os.Getenv("VERIF_WORK_SUFFIX"))
+	}
+	os.MkdirAll(evDir, 0o755)
+	os.WriteFile(filepath.Join(evDir, prop+".json"), b, 0o644)
 
 	fmt.Printf("SUMMARY property=%s tier=%s seed=%d evaluations=%d distinct_nontrivial=%d violations=%d known=%d inconclusive=%d wall=%.1fs exit=%d\n",
 		prop, tier, seed, mg.evals, int64(len(mg.distinct))+mg.distinctEnum, len(vkeys), len(kkeys), len(mg.inconclusive), time.Since(start).Seconds(), exit)
